@@ -55,8 +55,10 @@ LEAVES = {
     "KDAdditiveGaussianNoise": [(dict(std=0.1), ["T3"]), (dict(std=0.1, magnitude=0.5, magnitude_std=0.2), ["T3b"])],
     "KDAdditiveUniformNoise": [(dict(), ["T3"]), (dict(magnitude=0.5, magnitude_std=0.1, clip_max=1.0), ["T3"])],
     "KDColorJitter": [(CJ, ["T3", "PIL"])],
-    "KDGaussianBlurPIL": [(dict(sigma=(0.1, 2.0)), ["PIL", "T3"])],
-    "KDGaussianBlurTV": [(dict(kernel_size=3, sigma=(0.1, 2.0)), ["T3"])],
+    # the last entries: a degenerate range (one value): nothing to sample, still no other random source may be touched
+    "KDGaussianBlurPIL": [(dict(sigma=(0.1, 2.0)), ["PIL", "T3"]), (dict(sigma=1.5), ["PIL"])],
+    "KDGaussianBlurTV": [(dict(kernel_size=3, sigma=(0.1, 2.0)), ["T3"]), (dict(kernel_size=3, sigma=1.5), ["T3", "PIL"]),
+                         (dict(kernel_size=3, sigma=(2.0, 2.0)), ["T3"])],
     "KDRandAugment": [(RA, ["PIL", "PILb"])],
     "KDRandAugmentCustom": [(RA, ["PIL"])],
     "KDRandomAdditiveGaussianNoise": [(dict(p=0.5, std=0.1), ["T3"])],
@@ -99,6 +101,10 @@ LEAVES = {
 # composition wrappers and deterministic transforms: covered through the grammar / not stochastic
 STRUCTURAL = {"KDComposeTransform", "KDRandomApply", "PatchwiseTransform", "KDScheduledTransform", "KDRandomApplyBase",
               "KDStochasticTransform", "KDTransform", "KDIdentityTransform", "KDNormBase"}
+
+SCALABLE_LEAVES = [("leaf", "KDGaussianBlurTV", 0), ("leaf", "KDColorJitter", 0), ("leaf", "KDRandomColorJitter", 0),
+                   ("leaf", "KDRandomGrayscale", 0), ("leaf", "KDRandomSolarize", 0), ("leaf", "KDRandomThreshold", 0),
+                   ("leaf", "KDAdditiveGaussianNoise", 1), ("leaf", "KDRandomRotation", 0), ("leaf", "KDRandomGaussianBlurTV", 0)]
 
 # T3 -> T3 (shape preserving) leaves used inside compositions
 COMPOSABLE = [
@@ -148,6 +154,10 @@ def build(spec):
     kind = spec[0]
     if kind == "plain":
         return Plain()
+    if kind == "scaled":
+        t = build(spec[2])
+        t.scale_strength(spec[1])  # e.g. what a scheduled transform does before its first batch (strength 0)
+        return t
     if kind == "leaf":
         kwargs, _ = LEAVES[spec[1]][spec[2]]
         if spec[1] == "KDTransformChoice":
@@ -184,6 +194,8 @@ def spec_name(spec):
     kind = spec[0]
     if kind == "plain":
         return "plain"
+    if kind == "scaled":
+        return f"Scaled{spec[1]}({spec_name(spec[2])})"
     if kind == "leaf":
         return spec[1] + (f"#{spec[2]}" if spec[2] else "")
     if kind == "compose":
@@ -223,6 +235,11 @@ def composition_specs(depth, reduced=None):
         b = COMPOSABLE[3]
         out += [("compose", pl, a), ("compose", a, pl, b), ("compose", pl, pl, a, b), ("random_apply", 0.5, ("compose", pl, a)),
                 ("scheduled", ("compose", b, pl, a)), ("compose", ("compose", pl, a), b)]
+    # transforms whose strength was scaled before use: ranges collapse (factor 0) or shrink (0.5)
+    for a in SCALABLE_LEAVES:
+        for f in (0.0, 0.5):
+            out.append(("scaled", f, a))
+        out.append(("scaled", 0.0, ("compose", a, COMPOSABLE[4])))
     if depth >= 2:
         red = reduced or [COMPOSABLE[i] for i in (2, 4, 8, 9, 6)]
         d1 = []
